@@ -217,9 +217,10 @@ def _prepend_package_lua(orig_ast, package_lua):
     package_header = []
     package_header.extend(REQUIRE_LUA_PREAMBLE_PACKAGE)
     for pth, ast in package_lua.items():
-        escaped_pth = pth.replace(b'"', b'\\"')
+        # (Written as a string literal: quotes, backslashes and control
+        # characters in the name are escaped.)
         package_header.append(
-            b'package._c["' + escaped_pth + b'"]=function()\n')
+            b'package._c[' + lexer.TokString(pth).code + b']=function()\n')
         package_lines = list(ast.to_lines())
         if package_lines and not package_lines[-1].endswith(b'\n'):
             # (Keep the package's last line apart from the 'end'.)
